@@ -36,7 +36,7 @@ func init() { core.Register(prop{}) }
 func (prop) ID() string    { return "C05" }
 func (prop) Level() string { return "exploration" }
 func (prop) Rule() string {
-	return "constructor cases: event.Payload over all 256 one-byte and all 65,536 two-byte strings (exhaustive) and seeded strings up to 64 KiB (invalid UTF-8, NUL, control bytes), address options over TCP/UDP/other address kinds, seeded subsets/orders of the option constructors, MergeFrom/CopyFrom against a map model; read back through Range, ToMap, MarshalJSON and the real file channel's lines on disk. Service cases: every event captured while the C01 generators drive each service through the real dispatcher is re-marshalled and checked (JSON object holds every key, payload/payload-hex/payload-length consistent, addresses belong to a connection of the run). Non-trivial = a case that produced >=1 event with >=1 checked field; distinct by case input / event content hash. Events are also written to after their first serialisation (further options and a token through event.Apply) and serialised again: every key of the model must be in the JSON. Connection options (event.WithConn): 0..8 base options and an address on a connection, a server name added, 1..3 connections derived from it with a key of their own each; every key recorded along a chain must be in the events built from its Options(). The file-channel batch sends its events once from one goroutine and once more from 8 goroutines at the same time (line lengths 60..4000 bytes mixed). Keys of service events are compared in the form a JSON document can carry (one U+FFFD per byte that is not valid UTF-8)."
+	return "constructor cases: event.Payload over all 256 one-byte and all 65,536 two-byte strings (exhaustive) and seeded strings up to 64 KiB (invalid UTF-8, NUL, control bytes), address options over TCP/UDP/other address kinds, seeded subsets/orders of the option constructors, MergeFrom/CopyFrom against a map model; read back through Range, ToMap, MarshalJSON and the real file channel's lines on disk. Service cases: every event captured while the C01 generators drive each service through the real dispatcher is re-marshalled and checked (JSON object holds every key, payload/payload-hex/payload-length consistent, addresses belong to a connection of the run). Non-trivial = a case that produced >=1 event with >=1 checked field; distinct by case input / event content hash. Events are also written to after their first serialisation (further options and a token through event.Apply) and serialised again: every key of the model must be in the JSON. Connection options (event.WithConn): 0..8 base options and an address on a connection, a server name added, 1..3 connections derived from it with a key of their own each; every key recorded along a chain must be in the events built from its Options(). The file-channel batch sends its events once from one goroutine and once more from 8 goroutines at the same time (line lengths 60..4000 bytes mixed). Keys of service events are compared in the form a JSON document can carry (one U+FFFD per byte that is not valid UTF-8). The file-channel batch rotates its log (1 MiB) and ends with a burst of 40 events with 32-64 KiB payloads; lines are collected from every file."
 }
 func (prop) Assumptions() []string {
 	return []string{"JSON is required to contain every key; lossy UTF-8 replacement inside the JSON 'payload' string is allowed (payload-hex is the byte-exact field)", "an address of a kind other than TCP/UDP records nothing (nothing wrong may be recorded)"}
